@@ -217,7 +217,7 @@ fn check(c: &Case, info: &mut Info) -> Result<(), String> {
 /// Raw copies of ZIP64-sized source entries (hand-laid-out sparse source: declared uncompressed /
 /// compressed sizes on either side of 4 GiB, payload a zero run that is never decoded) into a writer on
 /// a sparse sink, between two normally written neighbours.
-fn check_straddle(sizes: &[(u64, u64)], dst_start: u64) -> Result<(), String> {
+pub fn check_straddle(sizes: &[(u64, u64)], dst_start: u64) -> Result<(), String> {
     use crate::sio::{Shared, SparseFile};
     use std::io::{Seek, SeekFrom, Write};
     let (src, expect) = super::c08::foreign_large2(sizes);
